@@ -9,8 +9,11 @@ import (
 	"io"
 	"log"
 	"log/slog"
+	"net"
+	"os"
 	"strings"
 	"sync"
+	"syscall"
 	"testing"
 	"time"
 
@@ -58,10 +61,40 @@ type Case struct {
 	// interruptions), and would supply the remaining data if it were asked again - the handler must stop
 	// there and must not read on.  0 = no such error.
 	ErrorAfterStep int `json:"error_after_step_1based"`
+	// OtherErr: which error value "another read error" is ("" = a plain text error): the errno of an
+	// unplugged device wrapped as the os package wraps it, a reset connection, a closed file, ...
+	OtherErr string `json:"other_error_kind,omitempty"`
+	// PreludeKind (with Prelude): 0 = two bytes of junk, then silence; the old channel is drained to its
+	// close before the handler is used again.  1 = a dead source (end of file at position 0); the caller
+	// installs the new channel as soon as Handle has returned, without waiting for the old one to close
+	// (which must still happen).  PreludeTolMs: the tolerance configured during the first call; the
+	// configuration is changed to TimeoutMs before the second.
+	PreludeKind  int  `json:"prelude_kind,omitempty"`
+	PreludeTolMs uint `json:"prelude_tolerance_ms"`
 }
 
 var errTimeout = errors.New("read /dev/ttyUSB0: i/o timeout")
-var errOther = errors.New("read /dev/ttyUSB0: input/output error")
+var errOther error = errors.New("read /dev/ttyUSB0: input/output error")
+
+func otherError(kind string) error {
+	switch kind {
+	case "eio":
+		return &os.PathError{Op: "read", Path: "/dev/ttyUSB0", Err: syscall.EIO}
+	case "enodev":
+		return &os.PathError{Op: "read", Path: "/dev/ttyUSB0", Err: syscall.ENODEV}
+	case "enxio":
+		return &os.PathError{Op: "read", Path: "/dev/ttyACM0", Err: syscall.ENXIO}
+	case "reset":
+		return &net.OpError{Op: "read", Net: "tcp", Err: os.NewSyscallError("read", syscall.ECONNRESET)}
+	case "closed":
+		return &os.PathError{Op: "read", Path: "|0", Err: os.ErrClosed}
+	case "unexpected-eof":
+		return io.ErrUnexpectedEOF
+	case "no-progress":
+		return io.ErrNoProgress
+	}
+	return errors.New("read /dev/ttyUSB0: input/output error")
+}
 
 type faultReader struct {
 	mu       sync.Mutex
@@ -139,6 +172,7 @@ func (r *faultReader) Read(p []byte) (int, error) {
 
 func check(c Case, o *stats.Obs) error {
 	input := c.Stream.Bytes()
+	errOther = otherError(c.OtherErr) // cases run one at a time in this package
 	// Normalise the script against the stream: the steps' data must add up to the stream.
 	total := 0
 	for _, s := range c.Steps {
@@ -189,6 +223,9 @@ func check(c Case, o *stats.Obs) error {
 	}
 
 	cfg := &jsonconfig.Config{TimeoutOnEOFMilliSeconds: c.TimeoutMs, WaitTimeOnEOFMilliseconds: c.WaitMs}
+	if c.Prelude {
+		cfg.TimeoutOnEOFMilliSeconds = c.PreludeTolMs
+	}
 	if c.SysLog {
 		cfg.SystemLog = log.New(io.Discard, "", 0)
 	}
@@ -198,26 +235,39 @@ func check(c Case, o *stats.Obs) error {
 	}
 	msgChan := make(chan handler.Message, mc)
 	fh := filehandler.New(msgChan, cfg)
+	var oldClosed chan struct{}
 	if c.Prelude {
-		// first call: two bytes of junk, then silence until the handler gives up
+		// first call: two bytes of junk (or nothing at all), then silence until the handler gives up
 		pre := &faultReader{data: []byte("ab"), steps: []Step{{Data: 2}}, terminal: "silence", errAfter: -1}
+		if c.PreludeKind == 1 {
+			pre = &faultReader{terminal: "silence", errAfter: -1}
+		}
 		preDone := make(chan struct{})
 		go func() { fh.Handle(drive.StartTime, bufio.NewReaderSize(pre, 16)); close(preDone) }()
 		drained := make(chan struct{})
-		go func() {
-			for range msgChan {
+		go func(ch chan handler.Message) {
+			for range ch {
 			}
 			close(drained)
-		}()
+		}(msgChan)
 		select {
 		case <-preDone:
 		case <-time.After(30 * time.Second):
 			o.Skip = true
 			return nil
 		}
-		<-drained
+		if c.PreludeKind == 1 {
+			oldClosed = drained // checked after the second call
+			o.Class("second-call-right-after-a-dead-source")
+		} else {
+			<-drained
+		}
 		msgChan = make(chan handler.Message, mc)
 		fh.MessageChan = msgChan
+		cfg.TimeoutOnEOFMilliSeconds = c.TimeoutMs // the operator changes the tolerance before reconnecting
+		if c.PreludeTolMs != c.TimeoutMs {
+			o.Class(fmt.Sprintf("tolerance-changed-between-calls/%d->%d", c.PreludeTolMs, c.TimeoutMs))
+		}
 		o.Class("second-call-on-same-handler")
 	}
 	rd := &faultReader{data: input, steps: c.Steps, terminal: c.Terminal, errAfter: c.ErrorAfterStep - 1}
@@ -257,6 +307,14 @@ collect:
 	case <-time.After(10 * time.Second):
 		o.Key = "no-return"
 		return fmt.Errorf("Handle did not return within 10 s after the channel was closed")
+	}
+	if oldClosed != nil {
+		select {
+		case <-oldClosed:
+		case <-time.After(20 * time.Second):
+			o.Key = "first-call-channel-not-closed"
+			return fmt.Errorf("the message channel of the first Handle call (dead source, stopped at position 0) was not closed within 20 s of the second call finishing")
+		}
 	}
 	rd.mu.Lock()
 	supplied, faultTimes, faultRun := rd.supplied, rd.faultTimes, rd.faultRun
@@ -376,6 +434,14 @@ func gen1(t *rapid.T) Case {
 	c.Terminal = rapid.SampledFrom([]string{"silence", "silence", "other-error"}).Draw(t, "terminal")
 	c.MsgCap = rapid.SampledFrom([]int{0, 1, 4}).Draw(t, "msgCap")
 	c.Prelude = rapid.IntRange(0, 5).Draw(t, "prelude") == 3
+	c.PreludeTolMs = c.TimeoutMs
+	if c.Prelude {
+		c.PreludeKind = rapid.IntRange(0, 1).Draw(t, "preludeKind")
+		if rapid.Bool().Draw(t, "preludeOtherTolerance") {
+			c.PreludeTolMs = rapid.SampledFrom([]uint{0, 25, 40}).Draw(t, "preludeTolMs")
+		}
+	}
+	c.OtherErr = rapid.SampledFrom([]string{"", "", "eio", "enodev", "enxio", "reset", "closed", "unexpected-eof", "no-progress"}).Draw(t, "otherErr")
 	c.StallAt = -1
 	if c.TimeoutMs > 0 && rapid.IntRange(0, 3).Draw(t, "stall") == 0 {
 		c.StallAt = rapid.IntRange(0, 3).Draw(t, "stallAt")
